@@ -112,6 +112,7 @@ func GenPlan(t *rapid.T, profile string, k Knobs) *Plan {
 	}
 	p.Horizon = time.Duration(rapid.IntRange(minH, maxH).Draw(t, "horizonH"))*h + ttl
 	p.SnapEvery = odd(h/3 + 7*time.Microsecond)
+	p.PlainDelete = rapid.IntRange(0, 3).Draw(t, "plain_delete") == 0
 	p.ExpirySlack = rapid.SampledFrom([]time.Duration{0, 0, 0, 50 * time.Millisecond, 250 * time.Millisecond, 300 * time.Millisecond}).Draw(t, "expiry_slack")
 	n := rapid.IntRange(max(1, k.MinInst), max(1, k.MaxInst)).Draw(t, "n")
 	groups := 1
